@@ -551,6 +551,16 @@ impl<T: Valid> Valid for Vec<T> {
     }
 }
 
+// Helper function. The length prefix of a sequence is untrusted input: never pre-allocate more than
+// a fixed number of bytes on its say-so (the vector still grows as elements are actually read).
+fn cautious_capacity<T>(len: usize) -> usize {
+    const MAX_PREALLOC_BYTES: usize = 1024 * 1024;
+    match core::mem::size_of::<T>() {
+        0 => 0,
+        size => len.min(MAX_PREALLOC_BYTES / size),
+    }
+}
+
 impl<T: CanonicalDeserialize> CanonicalDeserialize for Vec<T> {
     #[inline]
     fn deserialize_with_mode<R: Read>(
@@ -561,7 +571,7 @@ impl<T: CanonicalDeserialize> CanonicalDeserialize for Vec<T> {
         let len = u64::deserialize_with_mode(&mut reader, compress, validate)?
             .try_into()
             .map_err(|_| SerializationError::NotEnoughSpace)?;
-        let mut values = Self::with_capacity(len);
+        let mut values = Self::with_capacity(cautious_capacity::<T>(len));
         for _ in 0..len {
             values.push(T::deserialize_with_mode(
                 &mut reader,
@@ -658,7 +668,7 @@ impl<T: CanonicalDeserialize> CanonicalDeserialize for VecDeque<T> {
         let len = u64::deserialize_with_mode(&mut reader, compress, validate)?
             .try_into()
             .map_err(|_| SerializationError::NotEnoughSpace)?;
-        let mut values = Self::with_capacity(len);
+        let mut values = Self::with_capacity(cautious_capacity::<T>(len));
         for _ in 0..len {
             values.push_back(T::deserialize_with_mode(
                 &mut reader,
